@@ -59,7 +59,9 @@ end PlainHdr
 
 namespace ProtoHdr
 
-/-- `ProtoHdr::decrypt_and_decode` without a key (the decoding part), on the cursor model -/
+/-- `ProtoHdr::decrypt_and_decode` without a key (the decoding part), on the cursor model — up to the two `trace!` lines
+at its end; the second one, `trace!("[rx payload]: {}", Bytes(parsebuf.as_slice()))`, evaluates the checked slice
+`as_slice()` (when trace logging is enabled): that step is `decode0Traced` below -/
 def decode0 (h : Hdr) (b : RBuf) : Except Err (Hdr × RBuf) := do
   let (f, b) ← b.leU8
   let flags ← fromBits EXCH_FLAGS_ALL f
@@ -75,6 +77,12 @@ def decode0 (h : Hdr) (b : RBuf) : Except Err (Hdr × RBuf) := do
     let (a, b) ← b.leU32
     pure ({ h with ackCtr := a }, b)
   else pure (h, b)
+
+/-- `decode0` followed by the `parsebuf.as_slice()` of the final `trace!` (its value is only printed) -/
+def decode0Traced (h : Hdr) (b : RBuf) : Except Err (Hdr × RBuf) := do
+  let (h', b') ← decode0 h b
+  let _ ← b'.asSlice
+  pure (h', b')
 
 end ProtoHdr
 
